@@ -39,6 +39,10 @@ inductive Action where
 def allActions : List Action :=
   [.add, .chat, .gameMode, .listed, .latency, .display, .order, .hat]
 
+/-- An action list as a set in protocol order: what the wire's bit set carries, hence what any decoder
+    (gate's or the client's `EnumSet`) sees. -/
+def canonActs (acts : List Action) : List Action := allActions.filter acts.contains
+
 /-- One decoded entry of a player-info update packet (`playerinfo.Entry` /
     `ClientboundPlayerInfoUpdatePacket.Entry`).  Only the fields belonging to an action of the packet's
     action set are on the wire; the others are whatever the builder left there.  Components, profile
